@@ -45,7 +45,7 @@ func (c *c09Case) id() string {
 		f = fmt.Sprintf("%s@%d", c.Fault.Kind, c.Fault.Ord)
 	}
 	if c.Banner != nil {
-		f += "+banner:" + c.Banner.Form
+		f += "+banner:" + c.Banner.Form + "/" + c.Banner.Kind
 	}
 	return fmt.Sprintf("%s/%s/cmp=%v/s%d/fault=%s/pend=%d/wm=%s", c.Type, c.FrontEnd, c.Compare, c.Scenario, f, c.Pend, c.WriteMem)
 }
@@ -345,10 +345,12 @@ func checkC09(tier, replay string) int {
 					// The refused command is also the one whose echo a
 					// reload banner interrupts.
 					for _, form := range []string{"after-own-prompt", "after-line-no-prompt", "before-own-prompt", "inside"} {
-						cases = append(cases, &c09Case{Type: k.typ, FrontEnd: k.fe, Compare: k.cmp, Scenario: k.sc, Pend: 1,
-							Fault: &sim.Fault{Ord: e.Ord, Kind: "error"}, StepClass: e.Class, StepRaw: e.Raw,
-							Banner:        &sim.Banner{Ord: e.Ord, Form: form, Kind: "2:00", Chunk: "whole"},
-							FirstOfJoined: firstOfJoined, Setup: setup})
+						for _, kind := range []string{"2:00", "1:00"} {
+							cases = append(cases, &c09Case{Type: k.typ, FrontEnd: k.fe, Compare: k.cmp, Scenario: k.sc, Pend: 1,
+								Fault: &sim.Fault{Ord: e.Ord, Kind: "error"}, StepClass: e.Class, StepRaw: e.Raw,
+								Banner:        &sim.Banner{Ord: e.Ord, Form: form, Kind: kind, Chunk: "whole"},
+								FirstOfJoined: firstOfJoined, Setup: setup})
+						}
 					}
 				}
 			}
@@ -421,6 +423,9 @@ func checkC09(tier, replay string) int {
 			}
 			if c.Banner != nil {
 				step = c.StepClass + "+banner(" + c.Banner.Form + ")"
+				if c.Banner.Kind == "1:00" {
+					step = c.StepClass + "+banner(" + c.Banner.Form + ",1:00)"
+				}
 			}
 			fam := clause
 			switch clause {
